@@ -33,8 +33,16 @@ Pick == /\ ph = "pick"
              /\ (d = "x100" => (sp /\ z = "none" /\ rep = "plain"))
              /\ s' = [pairing |-> p, dir |-> dir, rep |-> rep, delta |-> d, comp |-> z, L |-> L, declared |-> decl, split |-> sp]
         /\ ph' = "done"
+\* the backend's END frame (gRPC-Web trailer frame, Connect end-of-stream message) sent compressed: tiny on the
+\* wire, far beyond L once inflated; on the converting path the transcoder has to inflate and hold it
+EndPairing(t) == [name |-> "transform", form |-> "grpc", codec |-> "json", target |-> t, tcodec |-> "proto", method |-> "Bidi"]
+PickEnd == /\ ph = "pick"
+           /\ \E t \in {"connect", "grpcweb"}, d \in {"m1", "x100"}, L \in LValues :
+                s' = [pairing |-> EndPairing(t), dir |-> "end", rep |-> "plain", delta |-> d, comp |-> "gzip", L |-> L,
+                      declared |-> FALSE, split |-> FALSE]
+           /\ ph' = "done"
 Done == ph = "done" /\ UNCHANGED vars
-Next == Pick \/ Done
+Next == Pick \/ PickEnd \/ Done
 Spec == Init /\ [][Next]_vars
 
 \* the size algebra is consistent: a message that must fail on some path does not fit
